@@ -8,8 +8,11 @@
   the producer first for integers and data and the consumer first for codata; statements lifted to
   new top-level definitions receive exactly their free variables."
 
-  Model: `Scc.Core2AxCut.shrinkProg` (Scc/Core2AxCut/Model.lean), tied to the Rust code by exact
-  equality of the S4 dumps (18 repo programs + 22 programs of /verif/gen/corpus/shrink).
+  Model: `Scc.Core2AxCut.shrinkProg` (Scc/Core2AxCut/Model.lean), tied to the Rust code (after the
+  label-collision repair of `fn lift`: the label is re-drawn while its printed form is the printed
+  form of a label in `used_labels`) by exact equality of the S4 dumps (18 repo programs, the 228
+  programs of /verif/gen/corpus that reach S3 — among them regress/c14_lifted_name_collision.sc,
+  which runs the new loop — and 160 generated programs).
   Target semantics: the named AxCut machine `Scc.AxCut.Named.run` (Scc/AxCut/SemNamed.lean).
 
   What is proved here about the code as it is:
@@ -25,6 +28,15 @@
                               length and order, agree position-wise in name, kind and type; the
                               parameter ids are fresh and pairwise distinct; the body is the image of
                               the statement renamed by exactly that correspondence.
+    * C04_lift_label_fresh    (FULL)  the label chosen by `lift` differs in printed form from every
+                              label in `used_labels` (the names of all definitions of the program and
+                              every label chosen before); over a whole statement `used_labels` grows
+                              exactly by the labels of the lifted definitions, whose printed forms are
+                              pairwise distinct and distinct from all earlier ones
+                              (`C04_labels_fresh_stmt`); the label-drawing loop terminates
+                              (`C04_draw_label_terminates`).
+    * C14_def_labels_distinct (FULL)  if the definitions of the input program have pairwise distinct
+                              printed names, so have the definitions of the output program.
     * C04_wtAxCheck_sound     the checker of the AxCut typing relation `WTax` is sound (it accepts the
                               S4 output of all 40 corpus programs).
   What is only stated (kept as `def … : Prop`):
@@ -87,21 +99,23 @@ theorem C04_no_panic_stmt (E : TEnv) (label : String) (s : Core.FsStmt) (st : St
 /-! ## lifted definitions receive exactly their free variables -/
 
 /-- C04_lift_free_vars. `lift env rec s st` is the only place where a definition is added to
-    `lifted_statements`. -/
+    `lifted_statements`.  The label is `lift_<current>__k`, `k` being the first id after the ids of
+    the parameters whose printed label is not used (see `C04_lift_label_fresh`). -/
 theorem C04_lift_free_vars (env : Env) (rec : Rec) (s : Core.FsStmt) (st : St) (r : AxCut.Stmt) (st' : St)
     (h : lift env rec s st = .ok (r, st')) :
     let fv := tfvStmt s []                       -- the Rust `typed_free_vars` set, in `BTreeSet` order
     let params := liftParams st.maxId fv         -- the parameters of the lifted definition
-    let label : AxCut.Ident := ⟨"lift_" ++ env.currentLabel ++ "_", st.maxId + fv.length + 1⟩
+    let base := "lift_" ++ env.currentLabel ++ "_"
     -- (a) no duplicates; exactly the free variables (no more, no less)
     fv.Nodup ∧
     (UniqueBinders s → ∀ b, b ∈ fv ↔ b ∈ fvStmt s) ∧
-    -- (b) the new definition: parameters = renamed free variables, body = image of the renamed statement
-    (∃ body st3,
-      rec (substStmt (liftSubst st.maxId fv) s) ⟨st.maxId + fv.length + 1, st.lifted⟩ = .ok (body, st3) ∧
-      st' = { st3 with lifted := ⟨label, shrinkContext env.codata params, body⟩ :: st3.lifted }) ∧
-    -- (c) the call site passes the free variables themselves, in the same order
-    r = .call label (shrinkContext env.codata fv) ∧
+    (∃ k, st.maxId + fv.length < k ∧
+      -- (b) the new definition: parameters = renamed free variables, body = image of the renamed statement
+      (∃ body st3,
+        rec (substStmt (liftSubst st.maxId fv) s) ⟨k, ⟨base, k⟩ :: st.usedLabels, st.lifted⟩ = .ok (body, st3) ∧
+        st' = { st3 with lifted := ⟨⟨base, k⟩, shrinkContext env.codata params, body⟩ :: st3.lifted }) ∧
+      -- (c) the call site passes the free variables themselves, in the same order
+      r = .call ⟨base, k⟩ (shrinkContext env.codata fv)) ∧
     -- (d) parameters and arguments correspond position by position
     params.length = fv.length ∧
     (∀ i (hi : i < fv.length), ∃ hi' : i < params.length,
@@ -110,9 +124,71 @@ theorem C04_lift_free_vars (env : Env) (rec : Rec) (s : Core.FsStmt) (st : St) (
     (shrinkContext env.codata params).map (fun b => (b.chi, b.ty)) =
       (shrinkContext env.codata fv).map (fun b => (b.chi, b.ty)) ∧
     liftSubst st.maxId fv = (fv.map (·.var.id)).zip (params.map (·.var)) := by
-  obtain ⟨body, st3, h1, h2, h3⟩ := lift_spec env rec s st r st' h
-  refine ⟨tfvStmt_nodup s, tfvStmt_eq_fv s, ⟨body, st3, h1, h3⟩, h2, (liftParams_spec _ _).1,
+  obtain ⟨k, body, st3, hk, _, _, h1, h2, h3⟩ := lift_spec env rec s st r st' h
+  refine ⟨tfvStmt_nodup s, tfvStmt_eq_fv s, ⟨k, hk, ⟨body, st3, h1, h3⟩, h2⟩, (liftParams_spec _ _).1,
     (liftParams_spec _ _).2, (liftParams_ids_nodup _ _).1, shrinkContext_liftParams _ _ _, liftSubst_spec _ _⟩
+
+/-! ## labels of lifted definitions are fresh -/
+
+/-- the `while` loop of `lift` that draws the label terminates: with the fuel `|used_labels| + 1`
+    that the model passes, the model-only outcome `LABELFUEL` is not reachable -/
+theorem C04_draw_label_terminates (base : String) (st : St) :
+    ∃ r, drawLabel base (st.usedLabels.length + 1) st = .ok r :=
+  drawLabel_ok base st
+
+/-- C04_lift_label_fresh.  The label chosen by `lift` is `lift_<current>__k`; its printed name
+    differs from the printed name of every label in `used_labels` at the time of the call — that
+    set contains the names of all definitions of the program (`shrinkProg` initialises it with them)
+    and every label chosen before (second part: `lift` records the label, and everything the
+    translation does only extends `used_labels`); `k` is the first candidate after the ids of the
+    parameters with this property.  If the recursive call satisfies the label invariant
+    `LabelsExt`, so does `lift`, and the label is in `used_labels` afterwards. -/
+theorem C04_lift_label_fresh (env : Env) (rec : Rec) (s : Core.FsStmt) (st : St) (r : AxCut.Stmt) (st' : St)
+    (h : lift env rec s st = .ok (r, st')) :
+    ∃ (label : Core.Ident) (args : AxCut.Ctx),
+      r = .call (shrinkIdentifier label) args ∧
+      label.name = "lift_" ++ env.currentLabel ++ "_" ∧
+      st.maxId + (tfvStmt s []).length < label.id ∧
+      (∀ u ∈ st.usedLabels, u.print ≠ label.print) ∧
+      (∀ j, st.maxId + (tfvStmt s []).length < j → j < label.id →
+        ∃ u ∈ st.usedLabels, u.print = (⟨"lift_" ++ env.currentLabel ++ "_", j⟩ : Core.Ident).print) ∧
+      (RecRel LabelsExt rec → label ∈ st'.usedLabels ∧ LabelsExt st st') := by
+  obtain ⟨label, st2, st3, body, hn, hlt, hu, hmin, hu2, _, _, hb, hr, hst⟩ := lift_label h
+  simp only [liftFresh_spec] at hlt hmin
+  refine ⟨label, _, hr, hn, hlt, hu, fun j h1 h2 => labelUsed_iff.mp (hmin j h1 h2), ?_⟩
+  intro hrec
+  refine ⟨?_, lift_labelsExt hrec _ _ _ _ h⟩
+  obtain ⟨g, l, hu3, _⟩ := hrec _ _ _ _ hb
+  subst hst
+  simp [hu3, hu2]
+
+/-- the label invariant for a whole statement: `used_labels` grows by a list `g` of labels whose
+    printed names are pairwise distinct and differ from the printed names of all labels used before,
+    and the definitions pushed to `lifted_statements` are named exactly by `g` -/
+theorem C04_labels_fresh_stmt (env : Env) (fuel : Nat) (s : Core.FsStmt) (st : St) (r : AxCut.Stmt) (st' : St)
+    (h : shrinkStmt env fuel s st = .ok (r, st')) :
+    ∃ (g : List Core.Ident) (l : List AxCut.Def),
+      st'.usedLabels = g ++ st.usedLabels ∧ st'.lifted = l ++ st.lifted ∧
+      (g.map (·.print)).Nodup ∧ (∀ x ∈ g, ∀ u ∈ st.usedLabels, x.print ≠ u.print) ∧
+      (l.map (·.name)).Perm (g.map shrinkIdentifier) :=
+  shrinkStmt_labelsExt env fuel s st r st' h
+
+/-- the same for programs: the definitions of the output are named by the names of the input
+    definitions and by labels `g` with pairwise distinct printed names different from the printed
+    names of all input definitions -/
+theorem C04_labels_fresh_prog (p : Core.FsProg) (q : AxCut.Prog) (h : shrinkProg p = .ok q) :
+    ∃ g : List Core.Ident, (g.map (·.print)).Nodup ∧
+      (∀ x ∈ g, ∀ d ∈ p.defs, x.print ≠ d.name.print) ∧
+      (q.defs.map (·.name)).Perm (p.defs.map (fun d => shrinkIdentifier d.name) ++ g.map shrinkIdentifier) :=
+  shrinkProg_labels h
+
+/-- C14_def_labels_distinct (the part of C14 "labels are distinct" that concerns this pass): with
+    distinct printed names of the input definitions, all definitions of the output program —
+    including the lifted ones — have pairwise distinct printed names (the names the back ends
+    print as assembly labels). -/
+theorem C14_def_labels_distinct (p : Core.FsProg) (q : AxCut.Prog) (h : shrinkProg p = .ok q)
+    (hp : (p.defs.map (·.name.print)).Nodup) : (q.defs.map (·.name.print)).Nodup :=
+  shrinkProg_labels_nodup h hp
 
 /-! ## the AxCut typing checker -/
 
@@ -147,8 +223,19 @@ example : wtFsCheck prog = true := by decide
 example : wtFsScopedCheck prog = true ∧ uniqueIdsCheck prog = true := by decide
 example : (shrinkProg prog).toOption.map (fun q => q.defs.length) = some 2 := by decide
 example : (shrinkProg prog).toOption.map (fun q => q.defs.all (AxCut.Named.wtDefB q)) = some true := by decide
--- hypothesis of `C04_lift_free_vars`, with the real recursive call
-example : (lift env (shrinkStmt env 10) lifted ⟨4, []⟩).toOption.isSome = true := by decide
+-- hypothesis of `C04_lift_free_vars` / `C04_lift_label_fresh`, with the real recursive call
+example : (lift env (shrinkStmt env 10) lifted ⟨4, [⟨"main", 0⟩], []⟩).toOption.isSome = true := by decide
+example : RecRel LabelsExt (shrinkStmt env 10) := shrinkStmt_labelsExt env 10
+-- a user definition called `lift_main__7` (the label `lift` would draw first): the loop draws again
+def prog2 : Core.FsProg :=
+  ⟨[⟨⟨"main", 0⟩, [⟨x1, .prd, .i64⟩, ⟨a2, .cns, .i64⟩], body⟩,
+    ⟨⟨"lift_main__7", 0⟩, [⟨x1, .prd, .i64⟩], .exit x1⟩], [listDecl], [], 4⟩
+example : wtFsCheck prog2 = true := by decide
+example : (prog2.defs.map (·.name.print)).Nodup := by decide
+example : (shrinkProg prog).toOption.map (fun q => q.defs.map (·.name)) =
+    some [⟨"main", 0⟩, ⟨"lift_main_", 7⟩] := by decide
+example : (shrinkProg prog2).toOption.map (fun q => q.defs.map (·.name)) =
+    some [⟨"main", 0⟩, ⟨"lift_main_", 8⟩, ⟨"lift_main__7", 0⟩] := by decide
 -- the free variables of the lifted statement, in `BTreeSet` order ("a" < "x")
 example : tfvStmt lifted [] = [⟨a2, .cns, .i64⟩, ⟨x1, .prd, .i64⟩] := by decide
 example : liftParams 4 (tfvStmt lifted []) = [⟨⟨"a", 5⟩, .cns, .i64⟩, ⟨⟨"x", 6⟩, .prd, .i64⟩] := by decide
@@ -167,4 +254,9 @@ end Scc.Props
 #print axioms Scc.Props.C04_no_panic
 #print axioms Scc.Props.C04_no_panic_stmt
 #print axioms Scc.Props.C04_lift_free_vars
+#print axioms Scc.Props.C04_draw_label_terminates
+#print axioms Scc.Props.C04_lift_label_fresh
+#print axioms Scc.Props.C04_labels_fresh_stmt
+#print axioms Scc.Props.C04_labels_fresh_prog
+#print axioms Scc.Props.C14_def_labels_distinct
 #print axioms Scc.Props.C04_wtAxCheck_sound
